@@ -3,8 +3,8 @@
 From Coq Require Import ExtrOcamlBasic.
 From Coq Require Import List ZArith String.
 From Coq Require Import NArith.
-From IprV Require Import GenTypes Visitor Bits Arena Lexicon LexiconProofs Derived Schema.
-From IprV.gen Require Import GenCategory GenIface GenVisitor GenAccept GenWords GenLexAcc GenDerived GenFactory.
+From IprV Require Import GenTypes Visitor Bits Arena Lexicon LexiconProofs Derived Schema Typing.
+From IprV.gen Require Import GenCategory GenIface GenVisitor GenAccept GenWords GenLexAcc GenDerived GenFactory GenTypeRule.
 Import ListNotations.
 Local Open Scope bool_scope.
 
@@ -71,7 +71,19 @@ Definition c02_model_node (f : gfactory) (args : list string) : option node :=
 Definition c02_exempt : gfactory -> bool := exempt.
 Definition c02_factories : list gfactory := gen_factories.
 
+(* C09: the prescription, what the source says today, and the type of a growing sequence under the rules *)
+Definition c09_prescribed : list (string * type_rule) := prescribed.
+Definition c09_source_rule (c : string) : type_rule := source_rule gen_type_bodies gen_type_class c.
+Definition c09_rule_of (c : string) : type_rule :=
+  match Schema.lookup c prescribed with Some r => r | None => NoRule "unprescribed" end.
+Definition c09_growth (kind : string) (ts : list nat) : list tval :=
+  let n := List.length ts in
+  let h0 := (map (fun t => {| t_cat := "Plus"%string; t_slots := []; t_typing := Some t; t_members := [] |}) ts ++
+             [{| t_cat := kind; t_slots := []; t_typing := None; t_members := [] |}])%list in
+  map (fun k => type_of c09_rule_of 3 (fold_left (fun h m => add_member h n m) (seq 0 k) h0) n) (seq 0 (S n)).
+
 Extraction "extracted/genmodel.ml" c06_rows
+  c09_prescribed c09_source_rule c09_growth
   c02_find c02_expect c02_model_node c02_exempt c02_factories
   lex_step lex_key_of lex_xfer_val lex_linkage_word lex_cc_word lex_fundamental lex_builtin_spellings
   lex_builtin_words ix_of
